@@ -52,6 +52,24 @@ type RegistrationManager struct {
 	// ingestChan is included here so that the capacity and use is available to
 	// stats
 	ingestChan <-chan interface{}
+
+	// reloadMu guards PhantomSelector and GeoIP, which OnReload replaces while ingest workers and
+	// connection handlers use them. Read them through Selector() and GeoIPDatabase().
+	reloadMu sync.RWMutex
+}
+
+// Selector returns the phantom selector currently in force.
+func (regManager *RegistrationManager) Selector() *phantoms.PhantomIPSelector {
+	regManager.reloadMu.RLock()
+	defer regManager.reloadMu.RUnlock()
+	return regManager.PhantomSelector
+}
+
+// GeoIPDatabase returns the GeoIP database currently in force.
+func (regManager *RegistrationManager) GeoIPDatabase() geoip.Database {
+	regManager.reloadMu.RLock()
+	defer regManager.reloadMu.RUnlock()
+	return regManager.GeoIP
 }
 
 // NewRegistrationManager returns a newly initialized registration Manager
@@ -105,11 +123,14 @@ func (regManager *RegistrationManager) OnReload(conf *RegConfig) {
 	if err != nil {
 		regManager.Logger.Errorf("failed to reload phantom subnets: %v", err)
 	} else {
+		regManager.reloadMu.Lock()
 		regManager.PhantomSelector = p
+		regManager.reloadMu.Unlock()
 	}
 
 	// if we made it here via sigHUP then the RegConfig.ParseBlocklists should
 	// already have been called and not erred.
+	regManager.RegConfig.policyMu.Lock()
 	regManager.RegConfig.CovertBlocklistSubnets = conf.CovertBlocklistSubnets
 	regManager.RegConfig.covertBlocklistSubnets = conf.covertBlocklistSubnets
 
@@ -124,6 +145,7 @@ func (regManager *RegistrationManager) OnReload(conf *RegConfig) {
 
 	regManager.RegConfig.PhantomBlocklist = conf.PhantomBlocklist
 	regManager.RegConfig.phantomBlocklist = conf.phantomBlocklist
+	regManager.RegConfig.policyMu.Unlock()
 
 	geoipDB, err := geoip.New(conf.DBConfig)
 	if errors.Is(err, geoip.ErrMissingDB) {
@@ -134,7 +156,9 @@ func (regManager *RegistrationManager) OnReload(conf *RegConfig) {
 		return
 	}
 
+	regManager.reloadMu.Lock()
 	regManager.GeoIP = geoipDB
+	regManager.reloadMu.Unlock()
 }
 
 // AddTransport initializes a transport so that it can be tracked by the manager when
